@@ -26,7 +26,7 @@ for n in names:
         else:
             tests_pass = None
         out = ''; code = 0
-        for pid in meta['props']:
+        for pid in (['all'] if meta['props'] == ['all'] else meta['props']):
             r = subprocess.run(['/verif/bin/gods-sa', 'check', pid, '--repo', repo, '--evidence-dir', ev], capture_output=True, text=True)
             out += r.stdout + r.stderr
             code = max(code, r.returncode)
